@@ -8,12 +8,12 @@ from harness.memrun import TICK, val_to_coq
 ID = "C12"
 RUN_MODULE = "Spec.TTLMap Model.Tags Run.C12"
 EXPLAIN = "explain"
-KEYS = ["a:1", "a:2", "b:1", "b:2", "c"]
+KEYS = ["a:1", "a:2", "b:1", "b:2", "c", "b:"]      # "b:" is the key of the templated function called with an empty field
 # registry: tag "ta" registered for key template "a:{x}" and, second, for the key "c"; templated tag "g:{x}" attached by a decorator to "b:{x}"; "u" is never registered
 REG = [("plain", "ta", "a:"), ("templ", "g:", "b:"), ("plain", "ta", "c")]      # "ta" is registered for two key templates
 RULE = ("histories (2-14 events) of tagged / untagged set and incr (direct cache.set(..., tags=) and through a decorated function whose tags= "
-        "registers a templated tag), delete, delete_match, delete_tags over 5 keys, tags {ta (registered), g:<x> (templated, registered by "
-        "decorator), u (never registered)}, TTL in {none, 0.25 s, 100 s}, advances 0-0.5 s; every key probed before and after each event; plus "
+        "registers a templated tag), delete, delete_match, delete_tags (one tag, or 2-3 tags in one call, incl. a tag nobody carries) over 6 keys (one of them the templated "
+        "function's key for an empty field), tags {ta (registered), g:<x> (templated, registered by decorator), u (never registered)}, TTL in {none, 0.25 s, 100 s}, advances 0-0.5 s; every key probed before and after each event; plus "
         "one family with 101-150 members in one tag (batches of 100). non-trivial: a delete_tags was issued on a tag with at least one live "
         "member and at least one non-member key alive")
 TRUSTED_BASE = ["Coq 8.16.1 kernel + vm_compute", "hand-written model coq/Model/Tags.v over the TTL-map spec, tied by this differential run",
@@ -21,7 +21,8 @@ TRUSTED_BASE = ["Coq 8.16.1 kernel + vm_compute", "hand-written model coq/Model/
 ASSUMPTIONS = ["store within capacity", "lazy expiry made deterministic: the harness probes every key before and after each event",
                "data keys never start with '_tag:'"]
 EXHAUSTIVE = {"quick": False, "thorough": False}
-TAGS_FOR = {"a:1": ["ta", "u"], "a:2": ["ta", "u"], "b:1": ["g:1", "u"], "b:2": ["g:2", "u"], "c": ["u", "ta"]}
+TAGS_FOR = {"a:1": ["ta", "u"], "a:2": ["ta", "u"], "b:1": ["g:1", "u"], "b:2": ["g:2", "u"], "c": ["u", "ta"], "b:": ["g:", "u"]}
+ALLTAGS = ["ta", "u", "g:1", "g:2", "g:", "nobody"]       # "nobody" never has a member
 
 
 def gen_cases(rng, tier):
@@ -42,7 +43,8 @@ def gen_cases(rng, tier):
                 ev.append([adv, ["incr", k, ttl, [t for t in TAGS_FOR[k] if rng.random() < 0.5]]])
             elif r < 0.68: ev.append([adv, ["del", k]])
             elif r < 0.74: ev.append([adv, ["delp", rng.choice(["a:", "b:", "c"])]])
-            else: ev.append([adv, ["dtags", rng.choice(["ta", "u", "g:1", "g:2"])]])
+            elif r < 0.92: ev.append([adv, ["dtags", rng.choice(ALLTAGS)]])
+            else: ev.append([adv, ["dtags", rng.sample(ALLTAGS, rng.randint(2, 3))]])      # one call with several tags
         cases.append({"keys": KEYS, "events": ev})
     # structured stream: tagged write, some removal, re-creation with / without the tag, delete_tags
     for _ in range(n // 2):
@@ -58,7 +60,7 @@ def gen_cases(rng, tier):
         if rm == "del": ev.append([rng.choice([0, 2]), ["del", k]])
         elif rm == "delp": ev.append([rng.choice([0, 2]), ["delp", k[:2] if ":" in k else k]])
         elif rm == "expire": ev.append([8, ["set", other, 5, 0, [], "set"]])
-        elif rm == "dtags_other": ev.append([0, ["dtags", rng.choice([x for x in ["ta", "u", "g:1", "g:2"] if x != t])]])
+        elif rm == "dtags_other": ev.append([0, ["dtags", rng.choice([x for x in ALLTAGS if x != t])]])
         rc = rng.choice(["untagged", "same", "incr_tagged", "incr_untagged", "none", "extend", "extend"])
         if rc == "untagged": ev.append([0, ["set", k, 5, rng.choice([0, 1600]), [], "set"]])
         elif rc == "same": ev.append([0, ["set", k, 5, rng.choice([0, 1600]), [t], "set"]])
@@ -66,7 +68,7 @@ def gen_cases(rng, tier):
         elif rc == "incr_untagged": ev.append([0, ["incr", k, 0, []]])
         elif rc == "extend":        # the same key written again under the same tag with a longer life, then time passes beyond the first deadline
             ev = [[0, ["set", k, 1, 4, [t], "set"]], [2, ["set", k, 5, 1600, [t], "set"]], [6, ["set", other, 5, 0, [], "set"]]]
-        ev.append([rng.choice([0, 2]), ["dtags", t]])
+        ev.append([rng.choice([0, 2]), ["dtags", t if rng.random() < 0.7 else rng.sample([x for x in ALLTAGS if x != t], rng.randint(1, 2)) + [t]]])
         cases.append({"keys": KEYS, "events": ev})
     for nmem in ([101, 150] if tier == "quick" else [100, 101, 150, 199, 200, 201, 250]):
         keys = ["a:%d" % i for i in range(nmem)] + ["c"]
@@ -110,7 +112,7 @@ def run_impl(case):
                     await cache.incr(e[1], expire=e[2] * TICK if e[2] else None, tags=e[3])
                 elif op == "del": await cache.delete(e[1])
                 elif op == "delp": await cache.delete_match(e[1] + "*")
-                elif op == "dtags": await cache.delete_tags(e[1])
+                elif op == "dtags": await cache.delete_tags(*([e[1]] if isinstance(e[1], str) else e[1]))
                 err = None
             except Exception as ex:  # noqa
                 err = type(ex).__name__
@@ -128,11 +130,12 @@ def to_coq(case, obs):
     h, o = [], []
     for (adv, e), (t, before, after) in zip(case["events"], obs["steps"]):
         op = e[0]
-        if op == "set": ev = C("TSet", S(e[1]), val_to_coq(e[2]), Z(e[3]), [S(x) for x in e[4]])
-        elif op == "incr": ev = C("TIncr", S(e[1]), Z(e[2]), [S(x) for x in e[3]])
-        elif op == "del": ev = C("TDel", S(e[1]))
-        elif op == "delp": ev = C("TDelPrefix", S(e[1]))
-        else: ev = C("TDeleteTags", S(e[1]))
+        if op == "set": ev = C("One", C("TSet", S(e[1]), val_to_coq(e[2]), Z(e[3]), [S(x) for x in e[4]]))
+        elif op == "incr": ev = C("One", C("TIncr", S(e[1]), Z(e[2]), [S(x) for x in e[3]]))
+        elif op == "del": ev = C("One", C("TDel", S(e[1])))
+        elif op == "delp": ev = C("One", C("TDelPrefix", S(e[1])))
+        elif isinstance(e[1], str): ev = C("One", C("TDeleteTags", S(e[1])))
+        else: ev = C("ManyTags", [S(x) for x in e[1]])
         h.append((Z(t), ev))
         o.append((list(before), list(after)))
     return C("CTags", reg, [S(k) for k in case["keys"]], h, o)
